@@ -332,6 +332,14 @@ impl Process {
         self.open_fd_ge(Fd(0), body)
     }
 
+    /// Tests whether [`open_fd`](Self::open_fd) would succeed, that is, the
+    /// minimum unused FD is less than the current soft limit for
+    /// `Resource::NOFILE`.
+    #[must_use]
+    pub fn can_open_fd(&self) -> bool {
+        self.is_fd_below_limit(min_unused_fd(Fd(0), self.fds.keys()))
+    }
+
     /// Removes the FD body for the given FD.
     pub fn close_fd(&mut self, fd: Fd) -> Option<FdBody> {
         self.fds.remove(&fd)
